@@ -225,9 +225,19 @@ func combineTypes(types []*Type) *Type {
 	combinedT := types[0]
 	for _, t := range types[1:] {
 		if combinedT.Equals(t) {
+			if t.hasFixed() && !combinedT.hasFixed() {
+				combinedT = t // a variable among the elements: the common type is fixed
+			}
 			continue
 		}
 		// types are not equal, ensure that composite types can be combined
+		if isComposite(combinedT) && combinedT.hasFixed() && combinedT.accepts(t) {
+			continue // t is a literal that converts to the type of the variable
+		}
+		if isComposite(t) && t.hasFixed() && t.accepts(combinedT) {
+			combinedT = t // combinedT is a literal that converts to the type of the variable
+			continue
+		}
 		if t.Fixed || combinedT.Fixed {
 			return ANY_TYPE
 		}
@@ -247,4 +257,8 @@ func combineTypes(types []*Type) *Type {
 		return ANY_TYPE
 	}
 	return combinedT
+}
+
+func isComposite(t *Type) bool {
+	return t.Name == ARRAY || t.Name == MAP
 }
